@@ -387,6 +387,7 @@ static void render_history(const struct op* ops, int n, struct vh_buf* out) {
   for (int i = 0; i < n; i++) {
     struct op o = ops[i];
     if (i) vb_printf(out, "; ");
+    if (o.code & 0x80) { vb_printf(out, "[allocator refuses everything] "); o.code &= 0x7f; }
     switch (o.code) {
       case OP_NEW: vb_printf(out, "s%d=new(%s%s%.0d)", o.a, kind_names[o.b < K_NKINDS ? o.b : 0], (o.b == K_DARR || o.b == K_DMAP) ? " cap " : "", (o.b == K_DARR || o.b == K_DMAP) ? o.c : 0); if ((o.b == K_DARR || o.b == K_DMAP) && o.c == 0) vb_printf(out, "0"); break;
       case OP_INCREF: case OP_DECREF: case OP_IDECREF: case OP_SERIALIZE: case OP_DESCRIBE: vb_printf(out, "%s(s%d)", op_names[o.code], o.a); break;
@@ -405,6 +406,12 @@ static void render_history(const struct op* ops, int n, struct vh_buf* out) {
   vb_u8(out, 0); out->n--;
 }
 
+static uint64_t n_refused(void) { return ALLOC == A_TRACK ? TA.refused : ALLOC == A_TAGGED ? TG_refused : AR_refused; }
+static void refuse_all(bool on) {
+  if (ALLOC == A_TRACK) ta_fail_from(on ? (int64_t)TA.requests : -1);
+  else if (ALLOC == A_TAGGED) TG_refuse_all = on;
+  else AR_refuse_all = on;
+}
 static size_t live_blocks(void) { return ALLOC == A_TRACK ? ta_live_count() : ALLOC == A_TAGGED ? (size_t)TG_live : (size_t)AR_live; }
 
 /* C12: observable contents of every live container vs the model's lists */
@@ -418,6 +425,7 @@ static void check_contents(const struct mstate* m, const struct op* ops, int upt
       case K_DARR: case K_IARR: {
         size_t sz = cbor_array_size(it), al = cbor_array_allocated(it);
         if (sz != n->nmem) { vh_violation("size-differs-from-model", "array holds %zu items, the list model %d", sz, n->nmem); break; }
+        if (sz && !cbor_array_handle(it)) { vh_violation("contents-differ-from-model", "array reports %zu items but its storage pointer is NULL (contents lost)", sz); break; }
         if (sz > al) vh_violation("size-exceeds-capacity", "array size %zu > allocated %zu", sz, al);
         if (n->kind == K_DARR && al != n->cap) vh_violation("definite-capacity-changed", "definite array preallocated for %d reports allocated=%zu", n->cap, al);
         if (cbor_array_is_definite(it) != (n->kind == K_DARR)) vh_violation("flavour-changed", "array flavour changed");
@@ -429,6 +437,7 @@ static void check_contents(const struct mstate* m, const struct op* ops, int upt
       case K_DMAP: case K_IMAP: {
         size_t sz = cbor_map_size(it), al = cbor_map_allocated(it);
         if (sz * 2 != n->nmem) { vh_violation("size-differs-from-model", "map holds %zu pairs, the list model %d", sz, n->nmem / 2); break; }
+        if (sz && !cbor_map_handle(it)) { vh_violation("contents-differ-from-model", "map reports %zu pairs but its storage pointer is NULL (contents lost)", sz); break; }
         if (sz > al) vh_violation("size-exceeds-capacity", "map size %zu > allocated %zu", sz, al);
         if (n->kind == K_DMAP && al != n->cap) vh_violation("definite-capacity-changed", "definite map preallocated for %d reports allocated=%zu", n->cap, al);
         if (al < last_alloc[i]) vh_violation("capacity-shrank", "map capacity went from %zu to %zu", last_alloc[i], al);
@@ -442,6 +451,7 @@ static void check_contents(const struct mstate* m, const struct op* ops, int upt
         cbor_item_t** h = n->kind == K_IBS ? cbor_bytestring_chunks_handle(it) : cbor_string_chunks_handle(it);
         size_t capn = ((struct cbor_indefinite_string_data*)it->data)->chunk_capacity;
         if (cnt != n->nmem) { vh_violation("size-differs-from-model", "chunked string holds %zu chunks, the list model %d", cnt, n->nmem); break; }
+        if (cnt && !h) { vh_violation("contents-differ-from-model", "chunked string reports %zu chunks but its chunk table pointer is NULL (contents lost)", cnt); break; }
         if (cnt > capn) vh_violation("size-exceeds-capacity", "chunk count %zu > chunk capacity %zu", cnt, capn);
         if (capn < last_alloc[i]) vh_violation("capacity-shrank", "chunk capacity went from %zu to %zu", last_alloc[i], capn);
         last_alloc[i] = capn;
@@ -456,7 +466,7 @@ static void check_contents(const struct mstate* m, const struct op* ops, int upt
   }
 }
 
-static uint64_t g_shared_steps, g_free_steps, g_ops_executed, g_op_hist[OP_NOPS], g_refused_ops;
+static uint64_t g_shared_steps, g_free_steps, g_ops_executed, g_op_hist[OP_NOPS], g_refused_ops, g_refusals_hit;
 
 /* Runs one history. Returns the number of ops that were applicable and executed. */
 static int run_history(const struct op* ops, int nops, bool allow_oob) {
@@ -480,21 +490,35 @@ static int run_history(const struct op* ops, int nops, bool allow_oob) {
         if (s == NSLOT) break;
         o = (struct op){OP_DECREF, (uint8_t)s, 0, 0};
       } else o = ops[i];
+      bool refuse = (o.code & 0x80) != 0;
+      struct op shown = o;
+      o.code &= 0x7f;
       struct mstate pre = m;
       int expect = m_apply(&m, o, allow_oob);
       if (expect < 0) { m = pre; if (final_phase) vh_die("hist: final drop not applicable"); goto next_op; }
       nfreed = 0;
+      uint64_t refused0 = n_refused();
+      if (refuse) refuse_all(true);
       int got = r_apply(&pre, &m, o, expect);
+      if (refuse) {
+        refuse_all(false);
+        if (n_refused() > refused0) { /* the call needed memory and was refused: documented failure, nothing may change */
+          expect = 0;
+          m = pre;
+          g_refusals_hit++;
+        }
+      }
+      o = shown;
       if (executed < 64) done[executed] = o;
       executed++;
       g_ops_executed++;
-      g_op_hist[o.code]++;
+      g_op_hist[o.code & 0x7f]++;
       if (expect == 0) g_refused_ops++;
       if (got == -2) return executed;
       if (got != expect) {
         struct vh_buf h = {0};
         render_history(done, executed < 64 ? executed : 64, &h);
-        vh_violation("result-differs-from-model", "%s returned %s, the model of the documented behaviour says %s; history: %s", op_names[o.code], got ? "success/item" : "failure/NULL", expect ? "success" : "refusal", (char*)h.p);
+        vh_violation("result-differs-from-model", "%s returned %s, the model of the documented behaviour says %s; history: %s", op_names[o.code & 0x7f], got ? "success/item" : "failure/NULL", expect ? "success" : "refusal", (char*)h.p);
         vb_free(&h);
         return executed;
       }
@@ -509,7 +533,7 @@ static int run_history(const struct op* ops, int nops, bool allow_oob) {
           struct vh_buf h = {0};
           render_history(done, executed < 64 ? executed : 64, &h);
           vh_violation("refcount-differs-from-rules", "after step %d (%s) node %d (%s) has reference count %zu; the ownership rules say %d (%d held by the client, %d by containers); history: %s",
-                       executed, op_names[o.code], k, kind_names[m.n[k].kind], have, want, m_client(&m, k), m_indeg(&m, k), (char*)h.p);
+                       executed, op_names[o.code & 0x7f], k, kind_names[m.n[k].kind], have, want, m_client(&m, k), m_indeg(&m, k), (char*)h.p);
           vb_free(&h);
           return executed;
         }
@@ -525,21 +549,28 @@ static int run_history(const struct op* ops, int nops, bool allow_oob) {
           if (was_freed && !dies) {
             struct vh_buf h = {0};
             render_history(done, executed < 64 ? executed : 64, &h);
-            vh_violation("released-while-referenced", "step %d (%s) released node %d (%s) although %d reference(s) to it remain; history: %s", executed, op_names[o.code], k, kind_names[pre.n[k].kind], m_client(&m, k) + m_indeg(&m, k), (char*)h.p);
+            vh_violation("released-while-referenced", "step %d (%s) released node %d (%s) although %d reference(s) to it remain; history: %s", executed, op_names[o.code & 0x7f], k, kind_names[pre.n[k].kind], m_client(&m, k) + m_indeg(&m, k), (char*)h.p);
             vb_free(&h);
             return executed;
           }
           if (dies && !was_freed) {
             struct vh_buf h = {0};
             render_history(done, executed < 64 ? executed : 64, &h);
-            vh_violation("not-released-with-last-reference", "step %d (%s) dropped the last reference to node %d (%s) but its block was not released; history: %s", executed, op_names[o.code], k, kind_names[pre.n[k].kind], (char*)h.p);
+            vh_violation("not-released-with-last-reference", "step %d (%s) dropped the last reference to node %d (%s) but its block was not released; history: %s", executed, op_names[o.code & 0x7f], k, kind_names[pre.n[k].kind], (char*)h.p);
             vb_free(&h);
             return executed;
           }
         }
         if (nfreed) g_free_steps++;
       }
-      if (P == 12) check_contents(&m, done, executed);
+      if (P == 12) {
+        uint64_t v0 = vh_violation_count();
+        check_contents(&m, done, executed);
+        if (vh_violation_count() != v0) { /* the structure is not what the model says: stop using it */
+          if (ALLOC == A_TRACK) ta_forget_all(); else if (ALLOC == A_TAGGED) TG_live = 0; else ar_reset();
+          return executed;
+        }
+      }
       if (!final_phase) break;
     }
   next_op:;
@@ -660,7 +691,21 @@ static void random_history(uint64_t u, int maxlen, bool allow_oob) {
     else o.code = OP_IDECREF;
     struct mstate next = m;
     if (m_apply(&next, o, allow_oob) < 0) continue;
-    m = next;
+    /* one op in seven that can allocate runs with an allocator that refuses everything: either it
+     * needed no memory (model as usual) or it must fail and leave everything as it was. The model
+     * is advanced optimistically here; run_history rolls it back when the refusal fires, so later
+     * ops of the program may become inapplicable and are skipped. */
+    if (vh_below(&r, 7) == 0 && (o.code == OP_NEW || o.code == OP_PUSH || o.code == OP_SET || o.code == OP_MAPADD || o.code == OP_ADDCHUNK || o.code == OP_COPY || o.code == OP_LOAD || o.code == OP_BUILDTAG)) {
+      bool grows = false;
+      int a = o.a < NSLOT ? m.slot[o.a] : -1;
+      if (o.code == OP_PUSH || o.code == OP_SET || o.code == OP_MAPADD || o.code == OP_ADDCHUNK) {
+        /* the model does not know capacities of indefinite containers: assume the refusal fires iff the member count is 0 or a power of two (geometric growth) */
+        int cnt = a >= 0 ? (is_map(m.n[a].kind) ? m.n[a].nmem / 2 : m.n[a].nmem) : 0;
+        grows = a >= 0 && (m.n[a].kind == K_IARR || m.n[a].kind == K_IMAP || m.n[a].kind == K_IBS || m.n[a].kind == K_ITS) && (cnt & (cnt - 1)) == 0 && !(o.code == OP_SET && o.b < m.n[a].nmem);
+      } else grows = true;
+      o.code |= 0x80;
+      if (!grows) m = next; /* expected to proceed without allocating */
+    } else m = next;
     ops[n++] = o;
   }
   history_case(ops, n, allow_oob);
@@ -684,9 +729,19 @@ static void c12_dfs(struct mstate* m, struct op* prefix, int base, int depth, in
   } else {
     for (int x = 1; x <= 2; x++) alpha[na++] = (struct op){OP_ADDCHUNK, 0, (uint8_t)x, 0};
   }
+  /* refused variants of the inserting ops (the allocator refuses everything during the call) */
+  { int na0 = na; for (int c = 0; c < na0 && na < 96; c++) if (alpha[c].code == OP_PUSH || alpha[c].code == OP_MAPADD || alpha[c].code == OP_ADDCHUNK) { alpha[na] = alpha[c]; alpha[na].code |= 0x80; na++; } }
   for (int c = 0; c < na; c++) {
     struct mstate next = *m;
-    if (m_apply(&next, alpha[c], true) < 0) continue;
+    struct op plain = alpha[c];
+    plain.code &= 0x7f;
+    if (m_apply(&next, plain, true) < 0) continue;
+    if (alpha[c].code & 0x80) {
+      /* the continuation after a refused insert is explored from the unchanged state when the container had to grow */
+      int cnt = is_map(kind) ? sz / 2 : sz;
+      bool indef = kind == K_IARR || kind == K_IMAP || kind == K_IBS || kind == K_ITS;
+      if (indef && (cnt & (cnt - 1)) == 0) next = *m;
+    }
     prefix[base + depth] = alpha[c];
     if (depth == 1 || maxlen == 1) { if ((int)(g_dfs_unit++ % (uint64_t)O.nshards) != O.shard) continue; }
     if (depth >= 1 || maxlen == 1 || O.shard == 0) { history_case(prefix, base + depth + 1, true); g_dfs_histories++; }
@@ -772,6 +827,9 @@ static void c13_corpus_case(const uint8_t* in, size_t n) {
     unsigned char* ab = NULL; size_t abn = 0;
     LIB(cbor_serialize_alloc(it, &ab, &abn)); LIBEND();
     if (ab) { LIB(_cbor_free(ab)); LIBEND(); }
+    ab = NULL;
+    LIB(cbor_serialize_alloc(it, &ab, NULL)); LIBEND();
+    if (ab) { LIB(_cbor_free(ab)); LIBEND(); }
     cbor_item_t* cp = LIB(cbor_copy(it)); LIBEND();
     cbor_describe(it, devnull);
     if (cp) { LIB(cbor_decref(&cp)); LIBEND(); }
@@ -848,6 +906,7 @@ static void hist_run(void) {
     vh_count_dyn("steps_that_released_memory", g_free_steps);
     vh_count_dyn("ops_executed", g_ops_executed);
     vh_count_dyn("ops_expected_to_be_refused", g_refused_ops);
+    vh_count_dyn("ops_in_which_an_allocation_refusal_fired", g_refusals_hit);
     for (int i = 1; i < OP_NOPS; i++) { char nm[64]; snprintf(nm, sizeof nm, "op.%s", op_names[i]); vh_count_dyn(nm, g_op_hist[i]); }
   } else if (P == 12) {
     if (!strcmp(st, "seq")) {
@@ -867,6 +926,7 @@ static void hist_run(void) {
     } else vh_die("driver hist: unknown C12 stage '%s'", st);
     vh_count_dyn("ops_executed", g_ops_executed);
     vh_count_dyn("ops_expected_to_be_refused", g_refused_ops);
+    vh_count_dyn("ops_in_which_an_allocation_refusal_fired", g_refusals_hit);
     for (int i = 1; i < OP_NOPS; i++) if (g_op_hist[i]) { char nm[64]; snprintf(nm, sizeof nm, "op.%s", op_names[i]); vh_count_dyn(nm, g_op_hist[i]); }
   } else {
     /* C13 corpus */
